@@ -267,7 +267,13 @@ func TestCheck(t *testing.T) {
 	r.Set("default_max_body", defaultMaxBody)
 	r.Set("body_sweep", runner.Pick(r, "all byte strings of length <= 1, plus the 1024 two-byte strings starting with 00|20|c2|ff, plus specials", "all 65793 byte strings of length <= 2, plus specials"))
 	r.Set("header_subset_max_size", runner.Pick(r, 2, 3))
-	r.Set("rule", "nested loops: sweep{body,header,publish-header,boundary} x case x way-in{ingress raw HTTP/1.1, admin publish payload_b64} x flow{pull http>grpc, pull grpc>http, push} x backend{memory,sqlite}; "+
+	r.Set("unicode_alphabet_code_points", len(cpAlphabet()))
+	r.Set("bounded_queue_bounds", runner.Pick(r,
+		"max_depth {1,2} x drop_policy {drop_oldest,reject} x delivered_retention {off,on} (+ memory retained-items pressure limit 1, max_depth {1,2}, there also every one-step continuation of I I D A and I D I A); every operation sequence of length <= 4 (memory) / <= 3 (sqlite) over {I,P1,P2,P3,Pex,Bdup,SdupO,SdupN,D,A,N} (push: enqueue operations only)",
+		"max_depth {1,2,3} x drop_policy {drop_oldest,reject} x delivered_retention {off,on} (+ memory retained-items pressure limit 1, max_depth {1,2}); every operation sequence of length <= 5 (memory) / <= 4 (sqlite) over {I,P1,P2,P3,Pex,Bdup,SdupO,SdupN,D,A,N} (push: enqueue operations only)"))
+	r.Set("rule", "nested loops: sweep{body,header,unicode,publish-header,boundary} x case x way-in{ingress raw HTTP/1.1, admin publish payload_b64, Store.Enqueue (unicode sweep)} x flow{pull http>grpc, pull grpc>http, push} x backend{memory,sqlite}; "+
+		"unicode sweep: first and last code point of every Unicode general category in the BMP and above U+FFFF plus the JSON/Go escaping boundary code points, as header value (embedded and alone) and as payload; "+
+		"bounded-queue family: every operation sequence within bounded_queue_bounds on a queue with queue_limits, every message visible after every operation and in the delivery flow afterwards is compared (which messages survive is not judged); "+
 		"every accepted message is observed at admin list, first delivery, nack+redelivery, (sqlite) close+reopen then two more deliveries; one evaluation = one observation or one accept/reject decision compared with the reference; "+
 		"distinct = (way in, route, framing, path out, phase, backend, body class, header atom set, verdict); non-trivial = the case went through a real enqueue and a real delivery or a real rejection")
 	r.Assume("Host, Content-Length and Transfer-Encoding are message framing, not part of the 'received headers' compared (they may or may not be stored)")
@@ -276,6 +282,9 @@ func TestCheck(t *testing.T) {
 	r.Assume("header values are valid UTF-8 without leading/trailing whitespace; forward-auth copy_headers carry one value each and do not collide with a client header")
 	r.Assume("publish may refuse a payload of 1 MiB or more that is within max_body (admin request-size cap); that is counted in publish_unaccepted_within_max_body, not judged")
 	r.Assume("push flows run on stores opened with the exported clock option (virtual time for retry delays); pull flows use the store newQueueStore opens from the config; Postgres is not executed")
+	r.Assume("a header value with a C0 control other than HTAB or with DEL cannot be carried in an HTTP/1.1 field (net/http refuses such a request before any handler runs and refuses to send it to a push target): such values are not sent through ingress or the push flow; admin publish may refuse them with 400 (counted in publish_refused_unsendable_header_value), Store.Enqueue takes them and they must come back unchanged over the pull paths")
+	r.Assume("Store.Enqueue / Store.EnqueueBatch called directly (as the MCP publish tool and other in-process producers do) is a way in of the unicode sweep and of the bounded-queue family; the target name of a pull route is \"pull\"")
+	r.Assume("bounded-queue family: which enqueue is refused and which messages a full queue keeps is the queue contract (C02/C13) and is only counted here; an accepted enqueue under an id that is in the queue makes that id denote the new message; messages listed in state delivered (delivered_retention) are compared like queued ones; memory pressure is reached through the exported WithMemoryPressureLimits option (the configuration file cannot lower the limit below 1000 retained items)")
 	r.Assume("an accepted message that is not handed out again by a dequeue/dispatcher is reported as an infrastructure error (queue contract, C02), not as a C07 violation")
 	r.Finish()
 }
